@@ -6,15 +6,24 @@ cd "$WT" || exit 9
 export PYTHONPATH=$WT/src TF_CPP_MIN_LOG_LEVEL=3 CUDA_VISIBLE_DEVICES=""
 git -C "$WT" diff -- src rust > /var/tmp/$NAME.patch
 [ -s /var/tmp/$NAME.patch ] || { echo "no source diff in $WT"; exit 9; }
+RUST=0; grep -q "^diff --git a/rust/" /var/tmp/$NAME.patch && RUST=1
+rebuild() {  # rebuild the extension of the worktree from its current rust sources
+  (cd "$WT/rust" && CARGO_NET_OFFLINE=true PYO3_PYTHON=/venv/bin/python cargo build --release --offline --features pyo3/extension-module --target-dir /var/tmp/$NAME.target >/dev/null 2>&1 \
+    && cp /var/tmp/$NAME.target/release/libsedpack_rs.so "$WT/src/sedpack/_sedpack_rs.cpython-312-x86_64-linux-gnu.so")
+}
+[ $RUST = 1 ] && rebuild
 # 1. demo fails with the patch
 timeout 300 /venv/bin/python _seed/demo.py > /var/tmp/$NAME.demo_with.log 2>&1; rc_with=$?
 # 2. demo passes without
 git -C "$WT" apply -R /var/tmp/$NAME.patch   # (never `git stash`: the stash is shared by all worktrees)
+[ $RUST = 1 ] && rebuild
 timeout 300 /venv/bin/python _seed/demo.py > /var/tmp/$NAME.demo_without.log 2>&1; rc_without=$?
 git -C "$WT" apply /var/tmp/$NAME.patch
+[ $RUST = 1 ] && rebuild
 # 3. test-suite passes with the patch (rust changes need a rebuild: done by the caller beforehand)
 timeout 1500 /venv/bin/python -m pytest -q -p no:cacheprovider --timeout=900 tests > /var/tmp/$NAME.tests.log 2>&1; rc_tests=$?
 summary=$(tail -1 /var/tmp/$NAME.tests.log)
+rm -rf /var/tmp/$NAME.target
 echo "$NAME demo_with=$rc_with demo_without=$rc_without tests=$rc_tests ($summary)"
 if [ $rc_with -ne 0 ] && [ $rc_without -eq 0 ] && [ $rc_tests -eq 0 ]; then
   mkdir -p $OUT
